@@ -92,6 +92,12 @@ def run(ctx):
                                                     "why": "the result of a call differs between a fresh sequential run and " + run_name,
                                                     "first": first[i][:600], "other": strip(r)[:600]})
                 break
+    # 2b. one builder object reused for several models, sequentially and concurrently: each result must be the one a
+    #     fresh builder gives (state kept on the builder between calls would make a call depend on the history)
+    pool = [m for m in stable]
+    rng.shuffle(pool)
+    groups = [pool[i:i + 5] for i in range(0, len(pool), 5)]
+    graphprops.history_phase(ctx, [], groups=[g for g in groups if len(g) >= 2][: (30 if ctx.tier == "quick" else 200)])
     # 3. one shared model, many goroutines (+ race detector)
     # the weighted graph of a model with a cycle that is not well-founded depends on Go's map order even sequentially
     # (known finding K-WG-cycles, C05/C06): for such models it is built but left out of the comparison
